@@ -13,7 +13,7 @@ pub fn mon() -> Mon {
         run,
         finish,
         replay,
-        rule: "Every catalogue call is executed three times: into a generous buffer filled with a seeded poison, then into a buffer of exactly the reported length filled with the bitwise complement of that poison, then at length+k. Oracle: outcome class from the reference (Ok for every argument that fits the frame; Err for EID 0x00/0xFF, >= 8 routing entries, > 30 message types, vendor format >= 2), same length and same bytes in all runs (an unwritten byte below len differs between complementary poisons), every byte at index >= len equal to its poison, whole buffer equal to its poison on Err, and no panic. Boundary arguments (EID 0/1/0xFE/0xFF, 6-9 routing entries, 29-33 types, formats 0/1/2/255, vendor field 0-7 bytes, bodies up to and across the SMBus limit) are swept. Non-trivial = a call judged in all runs; distinct = distinct (form, arguments) hashes.",
+        rule: "Every catalogue call is executed three times: into a generous buffer filled with a seeded poison, then into a buffer of exactly the reported length filled with the bitwise complement of that poison, then at length+k, then three times into a buffer that already holds the previous output (intact, last byte damaged, one byte damaged: a retry). Oracle: outcome class from the reference (Ok for every argument that fits the frame; Err for EID 0x00/0xFF, >= 8 routing entries, > 30 message types, vendor format >= 2), same length and same bytes in all runs (an unwritten byte below len differs between complementary poisons), every byte at index >= len equal to its poison, whole buffer equal to its poison on Err, and no panic. Boundary arguments (EID 0/1/0xFE/0xFF, 6-9 routing entries, 29-33 types, formats 0/1/2/255, vendor field 0-7 bytes, bodies up to and across the SMBus limit) are swept. Non-trivial = a call judged in all runs; distinct = distinct (form, arguments) hashes.",
         assumptions: &[
             "argument shapes as documented: 16-byte UUIDs, vendor ID fields of at most 7 bytes",
             "messages whose frame would need a byte count above 255 are judged only for 'no panic' and 'tail untouched' here; their refusal is C04's",
@@ -178,6 +178,34 @@ pub fn check(c: &Call, extra: usize, pseed: u64, rep: &mut Report) {
                     rep.violation(&format!("{}:writes-beyond-len", form), || format!("capacity {}: a byte at index >= {} was changed", cap, n), case);
                     return;
                 }
+            }
+        }
+    }
+    // a retry: the same call into a buffer that already holds the previous output - intact, with the
+    // PEC slot damaged, with one body byte damaged. The result must again be exactly the packet.
+    for variant in 0..3u8 {
+        let mut init = a.buf[..n + (extra % 5)].to_vec();
+        match variant {
+            1 => init[n - 1] ^= 0x5A,
+            2 => init[(pseed as usize) % n] ^= 0x01,
+            _ => {}
+        }
+        let (res, out) = invoke_aligned(c, &init, (pseed as usize >> 3) & 7);
+        rep.eval();
+        match res {
+            Ok(Ok(m)) if m == n && out[..n] == a.buf[..n] && out[n..] == init[n..] => {}
+            other => {
+                let what = match &other {
+                    Ok(Ok(m)) if *m == n && out[..n] != a.buf[..n] => "re-encoding over a previous output leaves stale bytes".to_string(),
+                    Ok(Ok(m)) if *m == n => "re-encoding over a previous output touches the tail".to_string(),
+                    o => format!("re-encoding over a previous output returns {:?}", o.as_ref().map_err(|p| p.long())),
+                };
+                rep.violation(
+                    &format!("{}:depends-on-buffer-contents:retry", form),
+                    || format!("{} (variant {}: 0 = intact copy, 1 = last byte damaged, 2 = one byte damaged); first run {}; now {}", what, variant, brief(&a), hex(&out[..n.min(out.len()).min(48)])),
+                    case,
+                );
+                return;
             }
         }
     }
